@@ -1077,6 +1077,23 @@ MUTANTS = [
       "            # The Jinja parser is recursive",
       "        except MemoryError:\n"
       "            # The Jinja parser is recursive"),
+    # F32-F34 put back
+    m('C14-version-overflow-not-caught', 'C14', ['R12'],
+      'mistral/lang/parser.py',
+      "    except (ValueError, TypeError, OverflowError):",
+      "    except (ValueError, TypeError):"),
+    m('C14-version-returned-as-written', 'C14', ['R12'],
+      'mistral/lang/parser.py',
+      "    return str_ver\n", "    return ver\n"),
+    m('C14-section-search-unguarded', 'C14', ['R12'],
+      'mistral/lang/parser.py',
+      "    if section_name not in wb_def:", "    if False:"),
+    m('C14-member-names-not-checked', 'C14', ['R12'],
+      'mistral/lang/base.py',
+      "            if not isinstance(k, str):\n                raise "
+      "exc.InvalidModelException(\n                    \"Name of a list",
+      "            if False:\n                raise "
+      "exc.InvalidModelException(\n                    \"Name of a list"),
 ]
 
 
@@ -1424,6 +1441,13 @@ REFACTORS = [
       "\n\n        if clause_publish:\n"
       "            if spec:\n                clause_publish.merge(spec)"
       "\n\n            return clause_publish"),
+    r('C14-ref-version-broad-handler', 'C14', 'mistral/lang/parser.py',
+      "    except (ValueError, TypeError, OverflowError):",
+      "    except (ValueError, TypeError, ArithmeticError):"),
+    r('C14-ref-section-search-try', 'C14', 'mistral/lang/parser.py',
+      "    io = six_io.StringIO(wb_def[wb_def.index(section_name):])",
+      "    start = wb_def.index(section_name)\n"
+      "    io = six_io.StringIO(wb_def[start:])"),
     r('C14-ref-task-link-early-return', 'C14', 'mistral/lang/v2/workflows.py',
       "        valid_task = self._task_exists(task_name)\n\n"
       "        if allow_engine_cmds:\n            valid_task |= task_name in "
